@@ -24,6 +24,8 @@ func init() {
 }
 
 func runC15(c *core.Ctx) {
+	c.Rule("NONDET", "functions are functions of their arguments (a retraction recomputes the same values)")
+	checkDeterministicFunctions(c, "NONDET")
 	c.Rule("RETRFLAG", "a node that retracts rows of its own declares NoRetractions false")
 	checkRetractionFlags(c, "RETRFLAG")
 	ids := typeIDs(c.Prog)
